@@ -76,6 +76,10 @@ class TrajectoryConstraintsRemover(engines.engine.Engine, CompilerMixin):
     ) -> ProblemKind:
         new_kind = problem_kind.clone()
         if new_kind.has_trajectory_constraints() or new_kind.has_state_invariants():
+            if new_kind.has_trajectory_constraints():
+                # the monitoring atoms (e.g. of sometime, sometime-after) are
+                # maintained by conditional effects
+                new_kind.set_effects_kind("CONDITIONAL_EFFECTS")
             new_kind.unset_constraints_kind("TRAJECTORY_CONSTRAINTS")
             new_kind.unset_constraints_kind("STATE_INVARIANTS")
             new_kind.set_conditions_kind("NEGATIVE_CONDITIONS")
